@@ -58,7 +58,7 @@ def is_finite(f):
 class C08(Prop):
     id = "C08"
     lean_modules = ["Fan2go.Props.C08"]
-    fact_modules = ["Fan2go.Props.Trans", "Fan2go.Props.Trans3Leaf", "Fan2go.Props.Trans3Exec"]
+    fact_modules = ["Fan2go.Props.Facts", "Fan2go.Props.Trans", "Fan2go.Props.Trans3Leaf", "Fan2go.Props.Trans3Exec"]
     rule = ("sensor: real HwmonSensor / FileSensor / CmdSensor objects + the real updateSensor, window sizes {1,2,3,10,50}, "
             "reading sequences with read faults (missing / unreadable / empty / non-numeric file; for cmd: non-zero exit, "
             "garbage, 'nan', 'inf', out-of-range output) at random places; converge: constant readings; sma: "
